@@ -558,6 +558,9 @@ func (w *World) boundsDiscipline(P string, f *Facts, r *Roles) {
 						why = "match position plus len(substring) of a successful strings.Index"
 					}
 				}
+				if why == "" && kind == "index" && w.paramIndexSafeAtCallers(fn, idx, base) {
+					why = "index and slice are parameters; at every call site the index is the counter of a loop over the slice passed with it"
+				}
 				if why == "" {
 					if a, ok := allow[fn.String()]; ok {
 						why = "allow-listed by role: " + a
@@ -1525,4 +1528,73 @@ func freshOrGivenValue(v ssa.Value, seen map[ssa.Value]bool, depth int) (bool, s
 		return false, "receiver is the result of " + funcFullName(sc)
 	}
 	return false, fmt.Sprintf("receiver of kind %T not recognised", v)
+}
+
+// paramIndexSafeAtCallers: base[idx] where both are parameters of fn: safe when every static call of fn in package exec
+// passes, as the index, the counter of an ascending loop whose bound is the length of the very value passed as the
+// slice (`for i := range s { f(..., s, i) }`), or an index guarded by a comparison with that length.
+func (w *World) paramIndexSafeAtCallers(fn *ssa.Function, idx, base ssa.Value) bool {
+	pi, ok1 := idx.(*ssa.Parameter)
+	pb, ok2 := base.(*ssa.Parameter)
+	if !ok1 || !ok2 {
+		return false
+	}
+	ii, bi := -1, -1
+	for k, p := range fn.Params {
+		if p == pi {
+			ii = k
+		}
+		if p == pb {
+			bi = k
+		}
+	}
+	if ii < 0 || bi < 0 {
+		return false
+	}
+	n, all := 0, true
+	w.forAllFuncs("exec", func(g *ssa.Function) {
+		allInstrs(g, func(in ssa.Instruction) {
+			c, ok := in.(ssa.CallInstruction)
+			if !ok || c.Common().StaticCallee() != fn {
+				return
+			}
+			n++
+			args := c.Common().Args
+			if ii >= len(args) || bi >= len(args) {
+				all = false
+				return
+			}
+			ai, ab := args[ii], args[bi]
+			if lenGuarded(in.Block(), ai, ab) {
+				return
+			}
+			// counter of a loop bounded by len(ab): the block is guarded by ai < len(ab)
+			okLoop := false
+			if ascendingCounter(ai) {
+				for _, a := range guardAtoms(in.Block()) {
+					bo, ok := a.V.(*ssa.BinOp)
+					if !ok || !a.Pol || bo.Op != token.LSS {
+						continue
+					}
+					if isLenOfSame(bo.Y, ab) {
+						okLoop = true
+					}
+				}
+			}
+			if !okLoop {
+				all = false
+			}
+		})
+		// a function value use of fn (handed to someone else) defeats the argument
+		allInstrs(g, func(in ssa.Instruction) {
+			for _, op := range in.Operands(nil) {
+				if f2, ok := (*op).(*ssa.Function); ok && f2 == fn {
+					if c, isCall := in.(ssa.CallInstruction); !isCall || c.Common().StaticCallee() != fn {
+						all = false
+					}
+				}
+			}
+		})
+	})
+	return n > 0 && all
 }
